@@ -324,8 +324,12 @@ def run(tier, seed):
             if ok:
                 same_text = text == s
                 if d in ('NM', 'SI'):
-                    from decimal import Decimal
-                    if Decimal(text) != Decimal(s):
+                    from decimal import Decimal, InvalidOperation
+                    try:
+                        same_number = Decimal(text) == Decimal(s)
+                    except InvalidOperation:
+                        same_number = False        # the encoding of an accepted number is not a number at all (e.g. '' for SI '0', seed C13-g)
+                    if not same_number:
                         chk.fail(None, {'clause': 'same-number', 'encoded': text, **rep}, rep)
                     elif plain_decimal(s) and not same_text:
                         chk.fail(known_class(d, s, ok, text), {'clause': 'plain-decimal-text', 'encoded': text, **rep}, rep)
